@@ -11,7 +11,10 @@ ASSUMPTIONS = ['C locale', 'hand-written transliteration validated by this diffe
 
 def corpus(ctx): return G.parse_corpus(ctx, 'C01', None)
 def generate(ctx): return G.all_streams(ctx, 1)
-def project(c, out): return G.project_fields(out, ['live'])   # the number of requests is not an observable of this property
+def project(c, out):
+    # the observables of THIS property: accepted or not, and the ledger (which tree, which error offset, how many requests: C02/C03/C10)
+    tree, kv = G.fields(out)
+    return ('NULL' if tree == 'NULL' else 'CRASH' if is_crash(out) else 'TREE') + ' live=' + kv.get('live', '?')
 
 def verdict(c, out, ctx):
     if is_crash(out): return 'crash / out-of-bounds access / write to the input / timeout while parsing: ' + out
